@@ -180,5 +180,12 @@ theorem Safe.skip {n : Nat} {eof : Option E} {k : Unit → Prog E α} {pos : Nat
   | ok p' => exact h p' hr
   | error e => exact Safe.mapEof_safe
 
+/-- `take(n).read_to_end()`: whatever is there, up to `n` bytes -/
+theorem Safe.readUpTo {n : Nat} {k : Bytes → Prog E α} {pos : Nat} {Q : α → Nat → Prop}
+    (h : Safe (idealOps s kind) (k (s.read pos (min n (s.len - pos)))) (pos + min n (s.len - pos)) Q) :
+    Safe (idealOps s kind) (.readUpTo n k) pos Q := by
+  unfold Safe at *
+  simpa only [Prog.runF, idealOps] using h
+
 end Ideal
 end MediaSan
